@@ -570,6 +570,17 @@ def run_valid_case(case, cls_name="PCBO", spin=False):
                 return Skip("edit had no effect")
     else:
         H = build_pre(getattr(q, cls_name), case)
+    fork = case.get("fork")
+    if fork:
+        # a copy of the model (or the model itself, the copy being kept) gets one more constraint of a relation the
+        # model already has: the other object's verdicts must not change
+        H2 = {"copy": lambda m: m.copy(), "ctor": lambda m: type(m)(m), "plus0": lambda m: m + 0,
+              "times1": lambda m: 1 * m}[fork["via"]](H)
+        grown, kept = (H2, H) if fork["grow"] == "copy" else (H, H2)
+        with warnings.catch_warnings():
+            warnings.simplefilter("ignore")
+            add_constraint(grown, fork["rel"], fork["P"], 1, True)
+        H = kept
     xs = variables_of(case["obj"])
     for _, P, _, _ in case["cons"]:
         for lab in variables_of(P):
@@ -731,6 +742,22 @@ def with_copies(gen, every=3):
     return g
 
 
+def with_forks(gen, every=3):
+    """the cases of `gen`, each with a copy forked off the finished model; the copy (or the original) then gets one
+    more constraint of the relation of the first recorded constraint, on the same variables"""
+    def g(ctx):
+        vias = ("copy", "ctor", "plus0", "times1")
+        for i, case in enumerate(gen(ctx)):
+            if i % every:
+                continue
+            rel, P, _, _ = case["cons"][0]
+            labs = variables_of(P) or [LABELS[0]]
+            extra = {(labs[0],): 1, (): -2 if rel in ("ge", "gt") else (1 if rel in ("le", "lt") else 0)}
+            j = i // every
+            yield dict(case, fork={"via": vias[j % 4], "grow": ("copy", "original")[(j // 4) % 2], "rel": rel, "P": extra})
+    return g
+
+
 def with_argtypes(gen, types, every=3):
     def g(ctx):
         for i, case in enumerate(gen(ctx)):
@@ -773,4 +800,13 @@ def check_valid_argedits(case):
     still decides the constraints as they were added. Non-trivial: some constraint has both outcomes."""
     if case["argtype"] == "QUBO" and any(len(set(k)) > 2 for _, P, _, _ in case["cons"] for k in P):
         return Skip("degree > 2 polynomial cannot be a QUBO")
+    return run_valid_case(case)
+
+
+@clause("C02.is_solution_valid_forked_copies", "C02", gen=with_forks(_gen_valid), nontrivial=_nontrivial_valid)
+def check_valid_forks(case):
+    """C02.is_solution_valid for a model from which a copy was taken (copy(), PCBO(model), model + 0, 1 * model) after
+    its constraints were added; the copy - or the model, the copy being judged - then gets one more constraint of a
+    relation already recorded, chosen so that it is violated everywhere or somewhere: the verdicts of the object that
+    was *not* extended stay those of its own constraints. Non-trivial: some constraint has both outcomes."""
     return run_valid_case(case)
